@@ -1,16 +1,12 @@
 //! Throw-away probes (`jv scratch`), not part of any check.
 pub fn run() {
-    use jiff::{RoundMode, Span, SpanRound, Timestamp, Unit};
-    let tz = jiff::tz::TimeZone::get("America/Argentina/San_Juan").unwrap();
-    let r = Timestamp::from_nanosecond(-1130965200500000000).unwrap().to_zoned(tz.clone());
-    let a = Span::new().weeks(51).days(8).milliseconds(500);
-    let end = r.checked_add(a).unwrap();
-    println!("r={r} end={end}");
-    println!("until(year) = {:?}", r.until((Unit::Year, &end)));
-    for inc in [1, 2, 186] {
-        for m in [RoundMode::Ceil, RoundMode::Trunc, RoundMode::HalfExpand] {
-            println!("round month inc={inc} {m:?} = {:?}", a.round(SpanRound::new().smallest(Unit::Month).largest(Unit::Year).increment(inc).mode(m).relative(&r)));
+    use jiff::{civil::date, RoundMode, Span, SpanRound, Unit};
+    let z = date(2024, 6, 1).in_tz("UTC").unwrap();
+    let d = date(2024, 6, 1);
+    for s in [Span::new().hours(-36), Span::new().hours(36), Span::new().months(-1).days(-15), Span::new().months(1).days(15)] {
+        for m in [RoundMode::HalfCeil, RoundMode::HalfFloor, RoundMode::HalfTrunc, RoundMode::HalfExpand, RoundMode::HalfEven] {
+            let u = if s.get_months() != 0 { Unit::Month } else { Unit::Day };
+            println!("{s:?} {m:?} {u:?}: zoned {:?}  civil {:?}", s.round(SpanRound::new().smallest(u).mode(m).relative(&z)), s.round(SpanRound::new().smallest(u).mode(m).relative(d)));
         }
     }
-    println!("total months {:?}", a.total((Unit::Month, &r)));
 }
